@@ -56,7 +56,7 @@ var c17EncStreams = [][]model.Event{
 
 var c17ParseDocs = map[*Codec][][]byte{
 	codecJSON: {[]byte(`null`), []byte(`"a"`), []byte(`[]`), []byte(`{}`), []byte(`[1,[2,{"a":null}]]`), []byte(`{"k":"v","n":[1.5,true]}`),
-		[]byte(`"` + strings.Repeat("x", 70) + `"`), []byte(`[1.5e3,-0]`), []byte("\"\\u00e9\\n\""), []byte(" [ ] "), []byte(`{"` + strings.Repeat("k", 70) + `":false}`)},
+		[]byte(`"` + strings.Repeat("x", 70) + `"`), []byte(`[1.5e3,-0]`), []byte(`1.5`), []byte(`7`), []byte("\"\\u00e9\\n\""), []byte(" [ ] "), []byte(`{"` + strings.Repeat("k", 70) + `":false}`)},
 	codecCBOR: {{0x01}, {0x61, 'a'}, {0x80}, {0xa0}, {0x82, 0x01, 0x81, 0x02}, {0x9f, 0x01, 0xff}, {0xbf, 0x61, 'a', 0xf6, 0xff}, {0x42, 1, 2},
 		append([]byte{0x78, 70}, bytes.Repeat([]byte{'x'}, 70)...), {0xfa, 0x3f, 0x80, 0, 0}, {0xa1, 0x60, 0x38, 0xc7}, {0x98, 0x01, 0x1b, 1, 2, 3, 4, 5, 6, 7, 8}},
 	codecUBJSON: {{'Z'}, {'i', 1}, []byte("Si\x01a"), {'[', ']'}, {'{', '}'}, []byte("[#i\x02i\x01i\x02"), []byte("[$U#i\x02\x01\x02"), []byte("{$i#i\x01i\x01a\x05"),
@@ -77,7 +77,21 @@ type c17In struct {
 	Y float64 `struct:"y,omitempty"`
 }
 
+// types that use a type T only inlined, next to values that use the same T as an ordinary value
+type c17OnlyInline struct {
+	ID int   `struct:"id"`
+	In c17In `struct:",inline"`
+}
+type c17MapField struct {
+	M map[string]int `struct:"m"`
+}
+type c17MapInline struct {
+	ID int            `struct:"id"`
+	M  map[string]int `struct:",inline"`
+}
+
 var c17FoldValues = []interface{}{
+	c17OnlyInline{ID: 7, In: c17In{X: 2, Y: 1}}, c17MapField{M: map[string]int{"a": 1}}, c17MapInline{ID: 1, M: map[string]int{"a": 1}},
 	1, "s", []int{1, 2}, map[string]interface{}{"a": []interface{}{1, "x"}},
 	c17S{A: "a", B: []int{1}, M: map[string]string{"k": "v"}, P: &c17In{X: 1, Y: 2}, I: c17In{X: 2}, In: c17In{X: 3}},
 	&c17In{X: 5}, []c17In{{X: 1}, {X: 2, Y: 3}}, map[string]c17In{"a": {X: 1}}, []interface{}{nil, true, c17In{X: 9}},
@@ -186,6 +200,9 @@ func c17Families(tier string) []engine.Family {
 		docs := c17ParseDocs[cd]
 		nops := len(docs) * 3
 		feed := func(p interface{}, w io.Writer, doc []byte, mode int) error {
+			if cd == codecJSON && len(doc) > 0 && (doc[0] == '-' || (doc[0] >= '0' && doc[0] <= '9')) {
+				mode = 2 // a top-level number is only terminated by the end of the input: Parse() is the only way to feed it
+			}
 			switch mode {
 			case 0:
 				_, err := w.Write(append([]byte(nil), doc...))
